@@ -168,7 +168,7 @@ def _segments(rng, frames_, mode, gap_mode, t0=None):
 
 def plan(seed, tier="quick", index=0):
     rng = sub_rng(seed, "plan")
-    stratum = rng.choice(["small", "small", "mixed", "mixed", "mixed", "handled-only", "stop-at", "churn", "big"])
+    stratum = rng.choice(["small", "small", "mixed", "mixed", "mixed", "mixed", "handled-only", "handled-only", "stop-at", "stop-at", "churn", "churn", "big", "big", "long", "many-peers"])
     network = rng.choice(sorted(MAGICS))
     magic = MAGICS[network]
     if stratum == "small":
@@ -179,6 +179,15 @@ def plan(seed, tier="quick", index=0):
         n_peers = rng.choice([2, 3])
         counts = [rng.choice([1, 2, 3]) for _ in range(n_peers)]
         kinds_per_peer = [["ping", "version", "verack"]] * n_peers
+    elif stratum == "long":
+        # long-lived connections: counters, thresholds and wrap-arounds that short runs never reach
+        n_peers = rng.choice([2, 3])
+        counts = [rng.choice([20, 33, 65, 130]) for _ in range(n_peers)]
+        kinds_per_peer = [ALL_KINDS] * n_peers
+    elif stratum == "many-peers":
+        n_peers = rng.choice([6, 8, 11, 17])
+        counts = [rng.choice([1, 1, 2]) for _ in range(n_peers)]
+        kinds_per_peer = [ALL_KINDS] * n_peers
     else:
         n_peers = rng.choice([2, 2, 3, 3, 4])
         counts = [rng.choice([1, 2, 3, 4]) for _ in range(n_peers)]
@@ -215,6 +224,8 @@ def plan(seed, tier="quick", index=0):
         fr = [frames.frame(magic, m["cmd"], bytes.fromhex(m["payload"])) for m in pd["msgs"]]
         pd["segments"] = _segments(sub_rng(seed, "seg%d" % pd["port"]), fr, pd["cut_mode"], pd["gap"], pd["t0"])
     gran = rng.choice(["io", "line", "line", "line", "line", "opcode"])
+    if stratum in ("long", "many-peers"):
+        gran = rng.choice(["io", "line", "line"])
     nmsgs = sum(counts)
     scale = {"io": 0.25, "line": 1.0, "opcode": 5.0}[gran]
     horizon = int((15 * n_peers + 18 * nmsgs) * scale) + 2
@@ -387,7 +398,7 @@ def execute(scenario, tape=None, keep_events=False):
         strategy=tuple(scenario["strategy"]),
         granularity=scenario["granularity"],
         tape=tape,
-        step_cap=STEP_CAP + 150000 * sum(1 for pd in scenario["peers"] for m in pd["msgs"] if m.get("big")),
+        step_cap=STEP_CAP + 150000 * sum(1 for pd in scenario["peers"] for m in pd["msgs"] if m.get("big")) + 400 * sum(len(pd["msgs"]) for pd in scenario["peers"]),
         trace_files=(p2p.__file__,),
         probes=probes,
     )
